@@ -753,6 +753,104 @@ example :
     (replyEntries (additionalAnswer (fun t => msgReplyAt Hh W 1 false false 9 t 1 none) [0x68, 0x2E] 1 fresh)).map (·.id) = [9, 2] := by
   decide
 
+theorem chaseLoopVisits_from_sub (sub : Bytes → MsgReply) (subV : Bytes → List (Bytes × Entry)) (qname : Bytes)
+    (qtype : UInt16) :
+    ∀ (fuel : Nat) (target : Bytes) (targets : List Bytes) (v : Bytes × Entry),
+      v ∈ chaseLoopVisits sub subV qname qtype fuel target targets → ∃ t, v ∈ subV t := by
+  intro fuel
+  induction fuel with
+  | zero => intro t ts v h; simp [chaseLoopVisits] at h
+  | succ n ih =>
+    intro t ts v h
+    unfold chaseLoopVisits at h
+    by_cases hc : ts.contains t = true
+    · rw [if_pos hc] at h; cases h
+    · rw [if_neg hc] at h
+      rcases List.mem_append.mp h with h | h
+      · exact ⟨t, h⟩
+      · cases hst : sub t with
+        | answer es =>
+          rw [hst] at h
+          simp only at h
+          by_cases h1 : (lastCnameTarget es == qname) = true
+          · simp [h1] at h
+          · simp only [h1] at h
+            by_cases h2 : ((es.any fun x => x.alias.isSome) && decide (n > 0) && !es.any fun x => hasQtypeRecord x qtype) = true
+            · simp only [h2, if_true] at h
+              exact ih _ _ v h
+            · simp [h2] at h
+        | nx es c => rw [hst] at h; cases h
+        | failed f => rw [hst] at h; cases h
+        | miss => rw [hst] at h; cases h
+
+/-- **Every hit the decoded body makes while answering a request — the client's own and each
+hop of the alias chase — is a verified hit for the question it was asked with**: the pair
+(question name, entry) that `handleCacheHit` sees, and under which a due entry claims its
+background refresh, is identical in name, type, class, CD partition and audience.  Together
+with `refresh_answers_own_question` this covers refreshes queued by chase hops. -/
+theorem msgVisits_are_verified (H : Bytes → UInt64) (W : World) (qtype : UInt16) (cd hasECS : Bool) :
+    ∀ (d : Nat) (name : Bytes) (qclass : UInt16) (client : Scope) (v : Bytes × Entry),
+      v ∈ msgVisitsAt H W qtype cd hasECS d name qclass client →
+      (v.1 = name ∧ ExactOK name qtype qclass cd client v.2) ∨ Identical v.2 v.1 qtype qclass cd none := by
+  intro d
+  induction d with
+  | zero =>
+    intro name qclass client v h
+    unfold msgVisitsAt at h
+    have hl := ladder_identity_serveMsg H W name qtype qclass cd client hasECS
+    cases hs : serveMsg H W name qtype qclass cd client hasECS with
+    | hit es =>
+      rw [hs] at hl h
+      obtain ⟨e, rfl, hid⟩ := hl
+      simp only [List.mem_singleton] at h
+      subst h
+      exact Or.inl ⟨rfl, hid⟩
+    | cut c => rw [hs] at h; cases h
+    | fail f => rw [hs] at h; cases h
+    | miss => rw [hs] at h; cases h
+  | succ n ih =>
+    intro name qclass client v h
+    unfold msgVisitsAt at h
+    have hl := ladder_identity_serveMsg H W name qtype qclass cd client hasECS
+    cases hs : serveMsg H W name qtype qclass cd client hasECS with
+    | hit es =>
+      rw [hs] at hl h
+      obtain ⟨e, rfl, hid⟩ := hl
+      simp only at h
+      rcases List.mem_cons.mp h with rfl | h
+      · exact Or.inl ⟨rfl, hid⟩
+      · right
+        unfold additionalVisits at h
+        split at h
+        · cases h
+        · split at h
+          · cases h
+          · split at h
+            · cases h
+            · split at h
+              · cases h
+              · split at h
+                · cases h
+                · obtain ⟨t, ht⟩ := chaseLoopVisits_from_sub _ _ name qtype _ _ _ v h
+                  rcases ih t qclass none v ht with ⟨rfl, hid'⟩ | hid'
+                  · rcases hid' with hid' | ⟨c, _, hc, _⟩
+                    · exact hid'
+                    · cases hc
+                  · exact hid'
+    | cut c => rw [hs] at h; cases h
+    | fail f => rw [hs] at h; cases h
+    | miss => rw [hs] at h; cases h
+
+-- non-vacuity: h. → a.: the request for h. hits both entries, each under its own question name
+example :
+    let Hh : Bytes → UInt64 := fun b => UInt64.ofNat (b.foldl (fun acc x => acc * 257 + x.toNat + 1) 0)
+    let a : Entry := { id := 2, name := [0x61, 0x2E], qtype := 1, qclass := 1, cd := false, scope := none }
+    let h : Entry := { id := 9, name := [0x68, 0x2E], qtype := 1, qclass := 1, cd := false, scope := none, alias := some [1, 0x41, 0] }
+    let st : AStore := [((CacheKey.mk a.name 1 1 false none).hash Hh, a), ((CacheKey.mk h.name 1 1 false none).hash Hh, h)]
+    let W : World := { st := st.get, fs := fun _ => none, cs := {} }
+    (msgVisitsAt Hh W 1 false false 10 [0x48, 0x2E] 1 none).map (fun v => (v.1, v.2.id)) = [([0x48, 0x2E], 9), ([0x41, 0x2E], 2)] := by
+  decide
+
 /-- every entry the decoded body composes into a reply has the question's own type,
 class and CD partition. -/
 theorem msgChase_entries_in_partition (H : Bytes → UInt64) (W : World) (name : Bytes) (qtype qclass : UInt16) (cd : Bool)
